@@ -1,6 +1,7 @@
 package checks
 
 import (
+	"runtime"
 	"bytes"
 	"fmt"
 	"runtime/debug"
@@ -75,3 +76,9 @@ func catch(f func()) (msg string) {
 func q(b []byte) string { return fmt.Sprintf("%q", b) }
 
 var stubRegion = regionFor("t", "", "", 1)
+
+// allStacks returns the stacks of all goroutines (diagnosis of a stalled free-running body).
+func allStacks() string {
+	buf := make([]byte, 1<<20)
+	return string(buf[:runtime.Stack(buf, true)])
+}
